@@ -12,6 +12,7 @@ KEY_ALPHA = {
     "str": ["a", "b", None],
     "int": [1, 2, None],
     "intc": [-1, -2, None],     # hash(-1) == hash(-2)
+    "eq": [1, True, 2],         # 1 == True (same group) but they are different values: key columns must reproduce them as they are
 }
 VAL_ALPHA = [1, 2, None]
 FNS = ["sum", "mean", "min", "max", "count", "stdev"]
@@ -180,9 +181,9 @@ def plan_units(thorough):
     if not thorough:
         for kind in KEY_ALPHA:
             for n in range(0, 3):
-                units.append((kind, 1, n, None, "full"))
+                units.append((kind, 1, n, None, "full" if kind != "eq" else "core"))
             for first in KEY_ALPHA[kind]:
-                units.append((kind, 1, 3, (first,), "full"))
+                units.append((kind, 1, 3, (first,), "full" if kind != "eq" else "core"))
         for first in KEY_ALPHA["str"]:
             units.append(("str", 1, 4, (first,), "core"))
         for n in range(0, 3):
